@@ -42,13 +42,15 @@ func DecodeGxDeviceRecord(inp []byte) (ret GxDeviceRecord, err error) {
 	} else {
 		ret.Soc = math.NaN()
 	}
-	if v := (binary.LittleEndian.Uint32(inp[5:9]) >> 3) & 0x0FFFFF; v != 0x0FFFFF {
-		ret.BatteryPower = float64(int32(v))
+	if v := (binary.LittleEndian.Uint32(inp[5:9]) >> 3) & 0x1FFFFF; v != 0x0FFFFF {
+		// sign extend the 21-bit two's complement value
+		ret.BatteryPower = float64(int32(v<<11) >> 11)
 	} else {
 		ret.BatteryPower = math.NaN()
 	}
-	if v := binary.LittleEndian.Uint32(inp[12:15]); v != 0x0FFFFF {
-		ret.DcPower = float64(int32(v))
+	if v := binary.LittleEndian.Uint32([]byte{inp[8], inp[9], inp[10], 0x00}) & 0x1FFFFF; v != 0x0FFFFF {
+		// sign extend the 21-bit two's complement value
+		ret.DcPower = float64(int32(v<<11) >> 11)
 	} else {
 		ret.DcPower = math.NaN()
 	}
